@@ -144,6 +144,11 @@ func main() {
 				c.Conf = append(c.Conf, vkit.KV{K: "x-conf-second", V: "two words"})
 			}
 		}
+		if rng.Intn(6) == 0 {
+			// a header name configured twice (two list items): both values belong to every request
+			// that does not define the header itself
+			c.Conf = append(c.Conf, vkit.KV{K: "Accept-Language", V: "en"}, vkit.KV{K: "accept-language", V: "fr;q=0." + fmt.Sprint(1+rng.Intn(8))})
+		}
 		if rng.Intn(3) == 0 {
 			// a limit somewhere between one entry and a little beyond everything the passes give
 			c.Limit = 1 + rng.Intn(len(c.File.Entries())*c.Passes+2)
